@@ -12,15 +12,30 @@ for name in "$@"; do
   if [ -f $D/demo.rs ]; then
     crate=$(grep -o 'crates/[a-z-]*/tests/demo_m[0-9]*\.rs' $D/agent_meta.json $D/meta.json 2>/dev/null | head -1 | cut -d: -f2 | cut -d/ -f2)
     [ -z "$crate" ] && crate=uplc
+    mkdir -p $W/crates/$crate/tests
     cp $D/demo.rs $W/crates/$crate/tests/verif_demo.rs
     (cd $W && cargo test -p $crate --test verif_demo --offline >/dev/null 2>&1); demo_without=$?
+  fi
+  # a demo that is an Aiken project: `aiken check` must succeed without the patch and fail with it
+  proj=""; for c in $D/demo $D/demo_project; do [ -f $c/aiken.toml ] && proj=$c; done
+  cli_without=na; cli_with=na
+  shdemo=""; for c in $D/demo.sh $D/demo_cli.sh; do [ -f $c ] && shdemo=$c; done
+  if [ -n "$shdemo" ]; then
+    (cd $W && cargo build -p aiken --offline >/dev/null 2>&1 && rm -rf /tmp/mut2/sd && cp -r $D /tmp/mut2/sd && bash /tmp/mut2/sd/$(basename $shdemo) $W/target/debug/aiken >/dev/null 2>&1); cli_without=$?
+  elif [ -n "$proj" ] && [ ! -f $D/demo.rs ]; then
+    (cd $W && cargo build -p aiken --offline >/dev/null 2>&1 && rm -rf /tmp/mut2/proj && cp -r $proj /tmp/mut2/proj && target/debug/aiken check /tmp/mut2/proj >/dev/null 2>&1); cli_without=$?
   fi
   (git -C $W apply $D/patch.diff 2>/dev/null || (git -C $W apply --3way $D/patch.diff >/dev/null 2>&1 && git -C $W reset -q)) || { echo "$name PATCH-FAILED"; continue; }
   if [ -f $D/demo.rs ]; then
     (cd $W && cargo test -p $crate --test verif_demo --offline >/dev/null 2>&1); demo_with=$?
     rm -f $W/crates/$crate/tests/verif_demo.rs
   fi
+  if [ -n "$shdemo" ]; then
+    (cd $W && cargo build -p aiken --offline >/dev/null 2>&1 && rm -rf /tmp/mut2/sd && cp -r $D /tmp/mut2/sd && bash /tmp/mut2/sd/$(basename $shdemo) $W/target/debug/aiken >/dev/null 2>&1); cli_with=$?
+  elif [ -n "$proj" ] && [ ! -f $D/demo.rs ]; then
+    (cd $W && cargo build -p aiken --offline >/dev/null 2>&1 && rm -rf /tmp/mut2/proj && cp -r $proj /tmp/mut2/proj && target/debug/aiken check /tmp/mut2/proj >/dev/null 2>&1); cli_with=$?
+  fi
   (cd $W && cargo test --workspace --no-fail-fast --offline > /verif/work/t/suite_$name.log 2>&1); suite=$?
-  echo "$name demo_without=$demo_without demo_with=$demo_with suite_with=$suite"
+  echo "$name demo_without=$demo_without demo_with=$demo_with cli_without=$cli_without cli_with=$cli_with suite_with=$suite"
 done
 git -C $W reset -q --hard; git -C $W clean -fdq -e target
